@@ -10,6 +10,28 @@
   below are for all histories of any length, by induction over the history and
   over the fuel of the loops (`reachable_winv`).
 
+  RE-ENTRANT bodies: task bodies and deferred functions (at any depth) may use
+  the scheduler while they run — `Act`: install any task at / after, suspend
+  any task (themselves included), call `stop()` — possibly raising afterwards.
+  Which theorems hold for which bodies:
+  * for ALL bodies (arbitrary acts): the invariant (`reachable_winv`) and every
+    clause read off it — `fire_order`, `never_early`, `once_per_install`,
+    `install_fate`, `pending_or_done`, `removed_never_fires`,
+    `one_entry_iff_flagged`, `deferred_fifo`; the manager-level theorems
+    (`reinstall_moves…`, `install_moves`, `fire_is_min`, the recurring
+    arithmetic, the refinement); the deferred-queue theorems
+    (`drain_queue_empty`, `deferred_isolated`, `batch_isolated`, `drain_calls`);
+  * for bodies in which NOBODY INSTALLS TASK `t` (`GoodW (calm t)`; they may do
+    anything else, to `t` or to others): `suspended_silent`,
+    `unscheduled_silent`;
+  * for bodies that LEAVE THE SCHEDULER ALONE (`Passive`): the completeness
+    theorems `runOnce_complete`, `runLoop_complete`, `advOnce_complete`,
+    `advRun_complete`, `fires_exactly_once`, and `runOnce_pass_sorted`.  They
+    are false of the code for bodies that install tasks (run_once decides
+    whether to go round again BEFORE the body runs; a body may install a task
+    in the past); the harness oracle evaluates the weaker, true form on the
+    real code (what was pending and due when the pass began has fired).
+
   Property text → formal statement
   * "Tasks fire in non-decreasing order of their due time and, among equal
     times, in the order they were installed"
@@ -458,8 +480,8 @@ theorem getNext_none {tm tm' : TM} {now : Nat} {d : Option Nat}
 def schedOf (tm : TM) : TM := { tm with trig := false }
 
 /-- everything the schedule theorems look at -/
-def coreOf (w : World) : TM × List Fire × Nat × (Nat → Bool) × (Nat → Body) × Nat :=
-  (schedOf w.tm, w.fired, w.now, w.recurring, w.body, w.spin)
+def coreOf (w : World) : TM × List Fire × Nat × (Nat → Bool) × (Nat → Body) × Nat × Bool :=
+  (schedOf w.tm, w.fired, w.now, w.recurring, w.body, w.spin, w.running)
 
 /-- `w'` differs from `w` at most in the deferred side (queue, logs) and the wake-up flag -/
 def Keeps (w w' : World) : Prop := coreOf w' = coreOf w
@@ -481,10 +503,103 @@ theorem Keeps.fired {w w' : World} (h : Keeps w w') : w'.fired = w.fired := cong
 theorem Keeps.now {w w' : World} (h : Keeps w w') : w'.now = w.now := congrArg (·.2.2.1) h
 theorem Keeps.recurring {w w' : World} (h : Keeps w w') : w'.recurring = w.recurring := congrArg (·.2.2.2.1) h
 theorem Keeps.body {w w' : World} (h : Keeps w w') : w'.body = w.body := congrArg (·.2.2.2.2.1) h
-theorem Keeps.spin {w w' : World} (h : Keeps w w') : w'.spin = w.spin := congrArg (·.2.2.2.2.2) h
+theorem Keeps.spin {w w' : World} (h : Keeps w w') : w'.spin = w.spin := congrArg (·.2.2.2.2.2.1) h
+theorem Keeps.running {w w' : World} (h : Keeps w w') : w'.running = w.running := congrArg (·.2.2.2.2.2.2) h
 
 theorem Keeps.sinv {w w' : World} (h : Keeps w w') (hs : SInv w.tm w.fired) : SInv w'.tm w'.fired := by
   rw [h.fired]; exact hs.congr h.heap h.counter h.flag h.removed
+
+/-! ### re-entrant use of the scheduler (`Act`) and bodies that leave it alone -/
+
+/-- everything but the manager, the event log and `running` -/
+def restOf (w : World) :
+    List Fn × List Nat × List Nat × List Nat × List Fire × Nat × (Nat → Bool) × (Nat → Body) × Nat :=
+  (w.queue, w.calls, w.subs, w.failed, w.fired, w.now, w.recurring, w.body, w.spin)
+
+/-- `w'` differs from `w` at most in the manager, the event log and `running` -/
+def KeepsQ (w w' : World) : Prop := restOf w' = restOf w
+
+theorem KeepsQ.refl (w : World) : KeepsQ w w := rfl
+theorem KeepsQ.trans {a b c : World} (h1 : KeepsQ a b) (h2 : KeepsQ b c) : KeepsQ a c := Eq.trans h2 h1
+theorem KeepsQ.queue {w w' : World} (h : KeepsQ w w') : w'.queue = w.queue := congrArg (·.1) h
+theorem KeepsQ.calls {w w' : World} (h : KeepsQ w w') : w'.calls = w.calls := congrArg (·.2.1) h
+theorem KeepsQ.subs {w w' : World} (h : KeepsQ w w') : w'.subs = w.subs := congrArg (·.2.2.1) h
+theorem KeepsQ.failed {w w' : World} (h : KeepsQ w w') : w'.failed = w.failed := congrArg (·.2.2.2.1) h
+theorem KeepsQ.fired {w w' : World} (h : KeepsQ w w') : w'.fired = w.fired := congrArg (·.2.2.2.2.1) h
+theorem KeepsQ.now {w w' : World} (h : KeepsQ w w') : w'.now = w.now := congrArg (·.2.2.2.2.2.1) h
+theorem KeepsQ.recurring {w w' : World} (h : KeepsQ w w') : w'.recurring = w.recurring := congrArg (·.2.2.2.2.2.2.1) h
+theorem KeepsQ.body {w w' : World} (h : KeepsQ w w') : w'.body = w.body := congrArg (·.2.2.2.2.2.2.2.1) h
+theorem KeepsQ.spin {w w' : World} (h : KeepsQ w w') : w'.spin = w.spin := congrArg (·.2.2.2.2.2.2.2.2) h
+
+theorem act_keepsQ (w : World) (a : Act) : KeepsQ w (w.act a) := by cases a <;> rfl
+
+theorem doActs_keepsQ (w : World) (as : List Act) : KeepsQ w (w.doActs as) := by
+  unfold World.doActs
+  induction as generalizing w with
+  | nil => exact KeepsQ.refl w
+  | cons a r ih => exact (act_keepsQ w a).trans (ih (w.act a))
+
+/-- whatever a body does to the manager, the schedule invariant survives: the
+    acts are the manager's own API -/
+theorem act_sinv {w : World} (a : Act) (h : SInv w.tm w.fired) : SInv (w.act a).tm (w.act a).fired := by
+  cases a with
+  | installAt tid t => exact installTask_inv _ _ _ _ h
+  | installAfter tid d => exact installTask_inv _ _ _ _ h
+  | suspend tid => exact suspend_inv tid h
+  | stop => exact h.congr rfl rfl rfl rfl
+
+theorem doActs_sinv {w : World} (as : List Act) (h : SInv w.tm w.fired) :
+    SInv (w.doActs as).tm (w.doActs as).fired := by
+  unfold World.doActs
+  induction as generalizing w with
+  | nil => exact h
+  | cons a r ih => exact ih (act_sinv a h)
+
+theorem doActs_nil (w : World) : w.doActs [] = w := rfl
+
+mutual
+  /-- every act of the function, and of everything it defers, satisfies `pa` -/
+  def goodFn (pa : Act → Bool) : Fn → Bool
+    | .mk _ _ kids acts => acts.all pa && goodAll pa kids
+  def goodAll (pa : Act → Bool) : List Fn → Bool
+    | [] => true
+    | f :: r => goodFn pa f && goodAll pa r
+end
+
+theorem goodFn_acts {pa : Act → Bool} {f : Fn} (h : goodFn pa f = true) :
+    f.acts.all pa = true ∧ goodAll pa f.kids = true := by
+  cases f with
+  | mk i r kids acts => simpa [goodFn, Fn.acts, Fn.kids] using h
+
+theorem goodAll_append (pa : Act → Bool) (a b : List Fn) :
+    goodAll pa (a ++ b) = (goodAll pa a && goodAll pa b) := by
+  induction a with
+  | nil => simp [goodAll]
+  | cons f r ih => simp [goodAll, ih, Bool.and_assoc]
+
+theorem goodAll_cons {pa : Act → Bool} {f : Fn} {r : List Fn} (h : goodAll pa (f :: r) = true) :
+    goodFn pa f = true ∧ goodAll pa r = true := by
+  simpa [goodAll] using h
+
+/-- "leaves the scheduler alone": no acts at all -/
+def noAct : Act → Bool := fun _ => false
+
+theorem all_noAct {as : List Act} (h : as.all noAct = true) : as = [] := by
+  cases as with
+  | nil => rfl
+  | cons a r => simp [noAct] at h
+
+abbrev allPassive : List Fn → Bool := goodAll noAct
+abbrev passiveFn : Fn → Bool := goodFn noAct
+
+theorem passiveFn_acts {f : Fn} (h : passiveFn f = true) : f.acts = [] ∧ allPassive f.kids = true :=
+  ⟨all_noAct (goodFn_acts h).1, (goodFn_acts h).2⟩
+
+theorem allPassive_append (a b : List Fn) : allPassive (a ++ b) = (allPassive a && allPassive b) :=
+  goodAll_append noAct a b
+
+theorem allPassive_cons {f : Fn} {r : List Fn} (h : allPassive (f :: r) = true) :
+    passiveFn f = true ∧ allPassive r = true := goodAll_cons h
 
 theorem emit_keeps (w : World) (e : Ev) : Keeps w (w.emit e) := rfl
 theorem defer_keeps (w : World) (f : Fn) : Keeps w (w.defer f) := rfl
@@ -495,30 +610,59 @@ theorem deferAll_keeps (w : World) (fs : List Fn) : Keeps w (w.deferAll fs) := b
   | nil => exact Keeps.refl w
   | cons f r ih => exact (defer_keeps w f).trans (ih (w.defer f))
 
-theorem callFn_keeps (w : World) (f : Fn) : Keeps w (w.callFn f) := by
+theorem defer_queue (w : World) (f : Fn) : (w.defer f).queue = w.queue ++ [f] := rfl
+
+theorem deferAll_queue (w : World) (fs : List Fn) : (w.deferAll fs).queue = w.queue ++ fs := by
+  unfold World.deferAll
+  induction fs generalizing w with
+  | nil => simp
+  | cons f r ih => simp only [List.foldl_cons]; rw [ih, defer_queue]; simp
+
+theorem callFn_queue (w : World) (f : Fn) : (w.callFn f).queue = w.queue ++ f.kids := by
   unfold World.callFn
   simp only
+  have hq := (doActs_keepsQ ({ w with calls := w.calls ++ [f.id], out := w.out ++ [Ev.call f.id] } : World) f.acts).queue
+  split <;> simp [deferAll_queue, hq]
+
+theorem callFn_keeps (w : World) (f : Fn) (hf : f.acts = []) : Keeps w (w.callFn f) := by
+  unfold World.callFn
+  rw [hf]
+  simp only [doActs_nil]
   split
   · exact Keeps.trans (b := World.deferAll { w with calls := w.calls ++ [f.id], out := w.out ++ [Ev.call f.id] } f.kids)
       (Keeps.trans (b := { w with calls := w.calls ++ [f.id], out := w.out ++ [Ev.call f.id] }) rfl (deferAll_keeps _ _)) rfl
   · exact Keeps.trans (b := { w with calls := w.calls ++ [f.id], out := w.out ++ [Ev.call f.id] }) rfl (deferAll_keeps _ _)
 
-theorem runBatch_keeps (w : World) (b : List Fn) : Keeps w (w.runBatch b) := by
+theorem callFn_passive {w : World} {f : Fn} (hf : passiveFn f = true) (hq : allPassive w.queue = true) :
+    allPassive (w.callFn f).queue = true := by
+  rw [callFn_queue, allPassive_append, hq, (passiveFn_acts hf).2]; rfl
+
+theorem runBatch_keeps (w : World) (b : List Fn) (hb : allPassive b = true) (hq : allPassive w.queue = true) :
+    Keeps w (w.runBatch b) ∧ allPassive (w.runBatch b).queue = true := by
   unfold World.runBatch
   induction b generalizing w with
-  | nil => exact Keeps.refl w
-  | cons f r ih => exact (callFn_keeps w f).trans (ih (w.callFn f))
+  | nil => exact ⟨Keeps.refl w, hq⟩
+  | cons f r ih =>
+    obtain ⟨hf, hr⟩ := allPassive_cons hb
+    have := ih (w.callFn f) hr (callFn_passive hf hq)
+    exact ⟨(callFn_keeps w f (passiveFn_acts hf).1).trans this.1, this.2⟩
 
-theorem drainFuel_keeps (fuel : Nat) (w : World) : Keeps w (w.drainFuel fuel) := by
+theorem drainFuel_keeps (fuel : Nat) (w : World) (hq : allPassive w.queue = true) :
+    Keeps w (w.drainFuel fuel) ∧ allPassive (w.drainFuel fuel).queue = true := by
   induction fuel generalizing w with
-  | zero => exact Keeps.refl w
+  | zero => exact ⟨Keeps.refl w, hq⟩
   | succ n ih =>
     unfold World.drainFuel
     split
-    · exact Keeps.refl w
-    · exact Keeps.trans (b := { w with queue := [] }) rfl ((runBatch_keeps _ _).trans (ih _))
+    · exact ⟨Keeps.refl w, hq⟩
+    · have h1 := runBatch_keeps { w with queue := [] } w.queue hq rfl
+      have h2 := ih _ h1.2
+      exact ⟨Keeps.trans (b := { w with queue := [] }) rfl (h1.1.trans h2.1), h2.2⟩
 
-theorem drain_keeps (w : World) : Keeps w w.drain := drainFuel_keeps _ w
+/-- a drain of functions that leave the scheduler alone changes nothing the
+    schedule theorems look at -/
+theorem drain_keeps (w : World) (hq : allPassive w.queue = true) : Keeps w w.drain :=
+  (drainFuel_keeps _ w hq).1
 
 /-! ## the deferred queue: first in, first out, each exactly once -/
 
@@ -538,8 +682,11 @@ theorem deferAll_dmid {w : World} {rem : List Fn} (fs : List Fn) (h : DMid w rem
   | cons f r ih => exact ih (defer_dmid f h)
 
 theorem callFn_dmid {w : World} {rem : List Fn} (f : Fn) (h : DMid w (f :: rem)) : DMid (w.callFn f) rem := by
-  have h1 : DMid { w with calls := w.calls ++ [f.id], out := w.out ++ [Ev.call f.id] } rem := by
+  have h0 : DMid { w with calls := w.calls ++ [f.id], out := w.out ++ [Ev.call f.id] } rem := by
     unfold DMid at *; simp [h]
+  have hk := doActs_keepsQ ({ w with calls := w.calls ++ [f.id], out := w.out ++ [Ev.call f.id] } : World) f.acts
+  have h1 : DMid (World.doActs { w with calls := w.calls ++ [f.id], out := w.out ++ [Ev.call f.id] } f.acts) rem := by
+    unfold DMid at *; rw [hk.subs, hk.calls, hk.queue]; exact h0
   have h2 := deferAll_dmid f.kids h1
   unfold World.callFn
   simp only
@@ -575,19 +722,6 @@ theorem weights_append (a b : List Fn) : weights (a ++ b) = weights a + weights 
   | nil => simp [weights]
   | cons f r ih => simp [weights, ih]; omega
 
-theorem defer_queue (w : World) (f : Fn) : (w.defer f).queue = w.queue ++ [f] := rfl
-
-theorem deferAll_queue (w : World) (fs : List Fn) : (w.deferAll fs).queue = w.queue ++ fs := by
-  unfold World.deferAll
-  induction fs generalizing w with
-  | nil => simp
-  | cons f r ih => simp only [List.foldl_cons]; rw [ih, defer_queue]; simp
-
-theorem callFn_queue (w : World) (f : Fn) : (w.callFn f).queue = w.queue ++ f.kids := by
-  unfold World.callFn
-  simp only
-  split <;> simp [deferAll_queue]
-
 theorem runBatch_weight (w : World) (b : List Fn) :
     weights (w.runBatch b).queue + b.length = weights w.queue + weights b := by
   unfold World.runBatch
@@ -598,7 +732,7 @@ theorem runBatch_weight (w : World) (b : List Fn) :
     have := ih (w.callFn f)
     rw [callFn_queue, weights_append] at this
     cases f with
-    | mk i rr kids => simp [weights, Fn.weight, Fn.kids] at *; omega
+    | mk i rr kids acts => simp [weights, Fn.weight, Fn.kids] at *; omega
 
 theorem drainFuel_empty (fuel : Nat) (w : World) (h : weights w.queue ≤ fuel) :
     (w.drainFuel fuel).queue = [] := by
@@ -635,8 +769,39 @@ theorem emit_dinv {w : World} (e : Ev) (h : DInv w) : DInv (w.emit e) := h
 
 theorem emit_winv {w : World} (e : Ev) (h : WInv w) : WInv (w.emit e) := ⟨h.sched, h.fifo⟩
 
+theorem callFn_sinv {w : World} (f : Fn) (h : SInv w.tm w.fired) :
+    SInv (w.callFn f).tm (w.callFn f).fired := by
+  unfold World.callFn
+  simp only
+  have h1 : SInv ({ w with calls := w.calls ++ [f.id], out := w.out ++ [Ev.call f.id] } : World).tm
+      ({ w with calls := w.calls ++ [f.id], out := w.out ++ [Ev.call f.id] } : World).fired := h
+  have h2 := doActs_sinv f.acts h1
+  have h3 := (deferAll_keeps _ f.kids).sinv h2
+  split
+  · exact h3
+  · exact h3
+
+theorem runBatch_sinv {w : World} (b : List Fn) (h : SInv w.tm w.fired) :
+    SInv (w.runBatch b).tm (w.runBatch b).fired := by
+  unfold World.runBatch
+  induction b generalizing w with
+  | nil => exact h
+  | cons f r ih => exact ih (callFn_sinv f h)
+
+theorem drainFuel_sinv (fuel : Nat) {w : World} (h : SInv w.tm w.fired) :
+    SInv (w.drainFuel fuel).tm (w.drainFuel fuel).fired := by
+  induction fuel generalizing w with
+  | zero => exact h
+  | succ n ih =>
+    unfold World.drainFuel
+    split
+    · exact h
+    · exact ih (runBatch_sinv _ (w := { w with queue := [] }) h)
+
+/-- the drain loop preserves the invariants even when the functions it calls
+    install, move and suspend tasks -/
 theorem drain_winv {w : World} (h : WInv w) : WInv w.drain :=
-  keeps_winv (drain_keeps w) h.sched (drain_dinv h.fifo)
+  ⟨drainFuel_sinv _ h.sched, drain_dinv h.fifo⟩
 
 theorem deferAll_dinv {w : World} (fs : List Fn) (h : DInv w) : DInv (w.deferAll fs) := by
   have : DMid w [] := by unfold DMid; unfold DInv at h; simpa using h
@@ -651,12 +816,17 @@ theorem process_winv {w : World} {e : Entry}
   simp only
   generalize hw1 : ({ w with fired := w.fired ++ [Fire.mk e.tid e.time e.seq w.now w.tm.counter],
                              out := w.out ++ [Ev.fire e.tid w.now e.time e.seq] } : World) = w1
-  have hs1 : SInv w1.tm w1.fired := by subst hw1; exact hs
-  have hd1 : DInv w1 := by subst hw1; exact hd
-  have hk := deferAll_keeps w1 (w.body e.tid).defers
+  have hs0 : SInv w1.tm w1.fired := by subst hw1; exact hs
+  have hd0 : DInv w1 := by subst hw1; exact hd
+  have hs1 := doActs_sinv (w.body e.tid).acts hs0
+  have hd1 : DInv (w1.doActs (w.body e.tid).acts) := by
+    have hk := doActs_keepsQ w1 (w.body e.tid).acts
+    unfold DInv at *; rw [hk.subs, hk.calls, hk.queue]; exact hd0
+  generalize w1.doActs (w.body e.tid).acts = w1' at *
+  have hk := deferAll_keeps w1' (w.body e.tid).defers
   have hd2 := deferAll_dinv (w.body e.tid).defers hd1
   have hs2 := hk.sinv hs1
-  generalize w1.deferAll (w.body e.tid).defers = w2 at *
+  generalize w1'.deferAll (w.body e.tid).defers = w2 at *
   split
   · exact ⟨installRecurring_inv _ _ _ _ hs2, hd2⟩
   · exact ⟨hs2, hd2⟩
@@ -692,6 +862,8 @@ theorem setNow_winv {w : World} (t : Nat) (h : WInv w) : WInv { w with now := t 
 theorem setTrig_winv {w : World} (b : Bool) (h : WInv w) : WInv { w with tm := { w.tm with trig := b } } :=
   ⟨h.sched.congr rfl rfl rfl rfl, h.fifo⟩
 
+theorem setRunning_winv {w : World} (b : Bool) (h : WInv w) : WInv { w with running := b } := ⟨h.sched, h.fifo⟩
+
 theorem runLoop_winv (fuel T : Nat) {w : World} (h : WInv w) : WInv (w.runLoop fuel T).1 := by
   induction fuel generalizing w with
   | zero => exact h
@@ -700,12 +872,14 @@ theorem runLoop_winv (fuel T : Nat) {w : World} (h : WInv w) : WInv (w.runLoop f
     simp only
     have h1 := fireNext_winv h
     split
-    · exact ih h1
+    · exact h
     · split
-      · exact ih (drain_winv (setTrig_winv false h1))
+      · exact ih h1
       · split
-        · exact drain_winv (setNow_winv _ (setTrig_winv true h1))
-        · exact ih (drain_winv (setNow_winv _ h1))
+        · exact ih (drain_winv (setTrig_winv false h1))
+        · split
+          · exact drain_winv (setRunning_winv false (setNow_winv _ (setTrig_winv true h1)))
+          · exact ih (drain_winv (setNow_winv _ h1))
 
 theorem api_winv {w : World} (r : TM × Option Raised) (hs : SInv r.1 w.fired) (hd : DInv w) : WInv (w.api r) := by
   unfold World.api
@@ -728,9 +902,9 @@ theorem step_winv {w : World} (op : Op) (h : WInv w) : WInv (w.step op).1 := by
     exact this
   | tick d => exact setNow_winv _ h
   | next => exact fireNext_winv h
-  | advOnce d => exact runOnceLoop_winv _ (setNow_winv _ h)
-  | advRun d fuel => exact runLoop_winv _ _ h
-  | jumpRun fuel => exact runLoop_winv _ _ h
+  | advOnce d fuel => exact runOnceLoop_winv _ (setNow_winv _ h)
+  | advRun d fuel => exact setRunning_winv false (runLoop_winv _ _ (setRunning_winv true h))
+  | jumpRun fuel => exact setRunning_winv false (runLoop_winv _ _ (setRunning_winv true h))
 
 theorem run_winv {w : World} (ops : List Op) (h : WInv w) : WInv (w.run ops) := by
   induction ops generalizing w with
@@ -752,6 +926,177 @@ theorem fresh_winv {w : World} (h : Fresh w) : WInv w := by
 /-- the invariants hold after every history -/
 theorem reachable_winv {w : World} (h : Fresh w) (ops : List Op) : WInv (w.run ops) :=
   run_winv ops (fresh_winv h)
+/-! ## worlds whose bodies and deferred functions only perform acts of a given kind
+
+  `GoodW pa w`: every act in every task body, in every function a body defers,
+  in every queued function, and in everything those defer, satisfies `pa`.
+  With `pa = noAct` this is "the scripted code leaves the scheduler alone"
+  (`Passive`); with `pa = calm t` it is "nobody installs task `t`". -/
+
+def GoodW (pa : Act → Bool) (w : World) : Prop :=
+  (∀ t, (w.body t).acts.all pa = true ∧ goodAll pa (w.body t).defers = true) ∧
+  goodAll pa w.queue = true
+
+theorem GoodW.of_eq {pa : Act → Bool} {w w' : World} (h : GoodW pa w) (hb : w'.body = w.body)
+    (hq : w'.queue = w.queue) : GoodW pa w' := by
+  unfold GoodW; rw [hb, hq]; exact h
+
+theorem GoodW.with_queue {pa : Act → Bool} {w w' : World} (h : GoodW pa w) (hb : w'.body = w.body)
+    (hq : goodAll pa w'.queue = true) : GoodW pa w' := by
+  unfold GoodW; rw [hb]; exact ⟨h.1, hq⟩
+
+theorem doActs_good {pa : Act → Bool} {w : World} (as : List Act) (h : GoodW pa w) :
+    GoodW pa (w.doActs as) :=
+  h.of_eq (doActs_keepsQ w as).body (doActs_keepsQ w as).queue
+
+theorem deferAll_good {pa : Act → Bool} {w : World} (fs : List Fn) (h : GoodW pa w)
+    (hf : goodAll pa fs = true) : GoodW pa (w.deferAll fs) := by
+  refine h.with_queue (deferAll_keeps w fs).body ?_
+  rw [deferAll_queue, goodAll_append, h.2, hf]; rfl
+
+theorem callFn_body (w : World) (f : Fn) : (w.callFn f).body = w.body := by
+  unfold World.callFn
+  simp only
+  have h1 := (doActs_keepsQ ({ w with calls := w.calls ++ [f.id], out := w.out ++ [Ev.call f.id] } : World) f.acts).body
+  have h2 := (deferAll_keeps (World.doActs { w with calls := w.calls ++ [f.id], out := w.out ++ [Ev.call f.id] } f.acts) f.kids).body
+  split
+  · exact h2.trans h1
+  · exact h2.trans h1
+
+theorem callFn_good {pa : Act → Bool} {w : World} {f : Fn} (h : GoodW pa w) (hf : goodFn pa f = true) :
+    GoodW pa (w.callFn f) := by
+  refine h.with_queue (callFn_body w f) ?_
+  rw [callFn_queue, goodAll_append, h.2, (goodFn_acts hf).2]; rfl
+
+theorem runBatch_good {pa : Act → Bool} {w : World} (b : List Fn) (h : GoodW pa w)
+    (hb : goodAll pa b = true) : GoodW pa (w.runBatch b) := by
+  unfold World.runBatch
+  induction b generalizing w with
+  | nil => exact h
+  | cons f r ih =>
+    obtain ⟨hf, hr⟩ := goodAll_cons hb
+    exact ih (callFn_good h hf) hr
+
+theorem drainFuel_good {pa : Act → Bool} (fuel : Nat) {w : World} (h : GoodW pa w) :
+    GoodW pa (w.drainFuel fuel) := by
+  induction fuel generalizing w with
+  | zero => exact h
+  | succ n ih =>
+    unfold World.drainFuel
+    split
+    · exact h
+    · exact ih (runBatch_good w.queue (w := { w with queue := [] }) (h.with_queue rfl rfl) h.2)
+
+theorem drain_good {pa : Act → Bool} {w : World} (h : GoodW pa w) : GoodW pa w.drain :=
+  drainFuel_good _ h
+
+theorem process_body_queue (w : World) (e : Entry) :
+    (w.process e).1.body = w.body ∧ (w.process e).1.queue = w.queue ++ (w.body e.tid).defers := by
+  unfold World.process
+  simp only
+  generalize hw1 : ({ w with fired := w.fired ++ [Fire.mk e.tid e.time e.seq w.now w.tm.counter],
+                             out := w.out ++ [Ev.fire e.tid w.now e.time e.seq] } : World) = w1
+  have hk1 := doActs_keepsQ w1 (w.body e.tid).acts
+  have hk2 := deferAll_keeps (w1.doActs (w.body e.tid).acts) (w.body e.tid).defers
+  have hb : (World.deferAll (w1.doActs (w.body e.tid).acts) (w.body e.tid).defers).body = w.body := by
+    rw [hk2.body, hk1.body, ← hw1]
+  have hq : (World.deferAll (w1.doActs (w.body e.tid).acts) (w.body e.tid).defers).queue
+      = w.queue ++ (w.body e.tid).defers := by
+    rw [deferAll_queue, hk1.queue, ← hw1]
+  split
+  · exact ⟨hb, hq⟩
+  · exact ⟨hb, hq⟩
+
+theorem process_good {pa : Act → Bool} {w : World} (e : Entry) (h : GoodW pa w) :
+    GoodW pa (w.process e).1 := by
+  obtain ⟨hb, hq⟩ := process_body_queue w e
+  refine h.with_queue hb ?_
+  rw [hq, goodAll_append, h.2, (h.1 e.tid).2]; rfl
+
+theorem fireNext_good {pa : Act → Bool} {w : World} (h : GoodW pa w) : GoodW pa w.fireNext.1 := by
+  unfold World.fireNext
+  rcases w.tm.getNext w.now with ⟨e?, d, tm'⟩
+  cases e? with
+  | none => exact h
+  | some e =>
+    simp only
+    have := process_good (w := { w with tm := tm' }) e h
+    split
+    · exact this
+    · exact this
+
+theorem runOnceLoop_good {pa : Act → Bool} (fuel : Nat) {w : World} (h : GoodW pa w) :
+    GoodW pa (w.runOnceLoop fuel).1 := by
+  induction fuel generalizing w with
+  | zero => exact h
+  | succ n ih =>
+    unfold World.runOnceLoop
+    simp only
+    split
+    · exact ih (drain_good (fireNext_good h))
+    · exact drain_good (fireNext_good h)
+
+theorem runLoop_good {pa : Act → Bool} (fuel T : Nat) {w : World} (h : GoodW pa w) :
+    GoodW pa (w.runLoop fuel T).1 := by
+  induction fuel generalizing w with
+  | zero => exact h
+  | succ n ih =>
+    unfold World.runLoop
+    simp only
+    have h1 := fireNext_good h
+    split
+    · exact h
+    · split
+      · exact ih h1
+      · split
+        · exact ih (drain_good (w := { w.fireNext.1 with tm := { w.fireNext.1.tm with trig := false } }) h1)
+        · split
+          · exact drain_good (w := { w.fireNext.1 with now := max w.fireNext.1.now T, running := false,
+                                                        tm := { w.fireNext.1.tm with trig := true } }) h1
+          · exact ih (drain_good (w := { w.fireNext.1 with now := w.fireNext.1.now + w.fireNext.1.timeout w.fireNext.2.1 }) h1)
+
+/-- operations whose deferred function (if any) only performs acts satisfying `pa` -/
+def goodOp (pa : Act → Bool) : Op → Bool
+  | .defer f => goodFn pa f
+  | _ => true
+
+theorem api_body_queue (w : World) (r : TM × Option Raised) : (w.api r).body = w.body ∧ (w.api r).queue = w.queue := by
+  unfold World.api
+  simp only
+  split <;> exact ⟨rfl, rfl⟩
+
+theorem step_good {pa : Act → Bool} {w : World} (op : Op) (h : GoodW pa w) (ho : goodOp pa op = true) :
+    GoodW pa (w.step op).1 := by
+  cases op with
+  | installAt tid t => exact h.of_eq (api_body_queue _ _).1 (api_body_queue _ _).2
+  | installAfter tid d => exact h.of_eq (api_body_queue _ _).1 (api_body_queue _ _).2
+  | installBare tid => exact h.of_eq (api_body_queue _ _).1 (api_body_queue _ _).2
+  | installRec tid iv off => exact h.of_eq (api_body_queue _ _).1 (api_body_queue _ _).2
+  | suspend tid => exact h
+  | resume tid => exact h.of_eq (api_body_queue _ _).1 (api_body_queue _ _).2
+  | defer f =>
+    have := deferAll_good [f] h (by simpa [goodAll, goodOp] using ho)
+    exact this
+  | tick d => exact h
+  | next => exact fireNext_good h
+  | advOnce d fuel => exact runOnceLoop_good _ (w := { w with now := w.now + d }) h
+  | advRun d fuel => exact (runLoop_good _ _ (w := { w with running := true }) h).of_eq rfl rfl
+  | jumpRun fuel => exact (runLoop_good _ _ (w := { w with running := true }) h).of_eq rfl rfl
+
+theorem run_good {pa : Act → Bool} {w : World} (ops : List Op) (h : GoodW pa w)
+    (ho : ∀ op ∈ ops, goodOp pa op = true) : GoodW pa (w.run ops) := by
+  induction ops generalizing w with
+  | nil => exact h
+  | cons op r ih =>
+    exact ih (step_good op h (ho op List.mem_cons_self)) (fun o hm => ho o (List.mem_cons_of_mem _ hm))
+
+/-- the scripted code never touches the scheduler (the hypothesis of the
+    completeness and single-pass theorems) -/
+abbrev Passive (w : World) : Prop := GoodW noAct w
+
+theorem Passive.body_acts {w : World} (h : Passive w) (t : Nat) : (w.body t).acts = [] :=
+  all_noAct (h.1 t).1
+
 /-! ## re-installing moves -/
 
 theorem suspend_counter (tm : TM) (tid : Nat) : (tm.suspend tid).counter = tm.counter := by
@@ -1102,97 +1447,170 @@ theorem installRecurring_flag_other {tm : TM} {t x : Nat} (now : Nat) (iv off : 
     · exact h
     · exact install_flag_other hx h
 
-theorem process_quiet {t : Nat} {w : World} {e : Entry} (he : e.tid ≠ t) (hf : w.tm.flag t = false) :
+/-- acts that do not (re-)arm task `t` -/
+def calm (t : Nat) : Act → Bool
+  | .installAt tid _ => tid != t
+  | .installAfter tid _ => tid != t
+  | _ => true
+
+theorem act_flag {t : Nat} {w : World} {a : Act} (ha : calm t a = true) (hf : w.tm.flag t = false) :
+    (w.act a).tm.flag t = false := by
+  cases a with
+  | installAt tid x => exact installTask_flag_other _ _ _ (by simpa [calm] using ha) hf
+  | installAfter tid d => exact installTask_flag_other _ _ _ (by simpa [calm] using ha) hf
+  | suspend tid => exact suspend_flag_false tid hf
+  | stop => exact hf
+
+theorem doActs_flag {t : Nat} {w : World} (as : List Act) (ha : as.all (calm t) = true)
+    (hf : w.tm.flag t = false) : (w.doActs as).tm.flag t = false := by
+  unfold World.doActs
+  induction as generalizing w with
+  | nil => exact hf
+  | cons a r ih =>
+    simp only [List.all_cons, Bool.and_eq_true] at ha
+    exact ih ha.2 (act_flag ha.1 hf)
+
+theorem callFn_quietD {t : Nat} {w : World} {f : Fn} (hg : goodFn (calm t) f = true)
+    (hf : w.tm.flag t = false) : (w.callFn f).tm.flag t = false ∧ (w.callFn f).fired = w.fired := by
+  unfold World.callFn
+  simp only
+  generalize hw1 : ({ w with calls := w.calls ++ [f.id], out := w.out ++ [Ev.call f.id] } : World) = w1
+  have hf1 : w1.tm.flag t = false := by subst hw1; exact hf
+  have hfi1 : w1.fired = w.fired := by subst hw1; rfl
+  have hf2 := doActs_flag f.acts (goodFn_acts hg).1 hf1
+  have hk1 := doActs_keepsQ w1 f.acts
+  have hk2 := deferAll_keeps (w1.doActs f.acts) f.kids
+  have hf3 : (World.deferAll (w1.doActs f.acts) f.kids).tm.flag t = false := by rw [hk2.flag]; exact hf2
+  have hfi3 : (World.deferAll (w1.doActs f.acts) f.kids).fired = w.fired := by rw [hk2.fired, hk1.fired, hfi1]
+  split
+  · exact ⟨hf3, hfi3⟩
+  · exact ⟨hf3, hfi3⟩
+
+theorem runBatch_quietD {t : Nat} {w : World} (b : List Fn) (hb : goodAll (calm t) b = true)
+    (hf : w.tm.flag t = false) : (w.runBatch b).tm.flag t = false ∧ (w.runBatch b).fired = w.fired := by
+  unfold World.runBatch
+  induction b generalizing w with
+  | nil => exact ⟨hf, rfl⟩
+  | cons f r ih =>
+    obtain ⟨hg, hr⟩ := goodAll_cons hb
+    obtain ⟨h1, h2⟩ := callFn_quietD hg hf
+    obtain ⟨h3, h4⟩ := ih hr h1
+    exact ⟨h3, h4.trans h2⟩
+
+theorem drainFuel_quietD {t : Nat} (fuel : Nat) {w : World} (hg : GoodW (calm t) w)
+    (hf : w.tm.flag t = false) :
+    (w.drainFuel fuel).tm.flag t = false ∧ (w.drainFuel fuel).fired = w.fired := by
+  induction fuel generalizing w with
+  | zero => exact ⟨hf, rfl⟩
+  | succ n ih =>
+    unfold World.drainFuel
+    split
+    · exact ⟨hf, rfl⟩
+    · obtain ⟨h1, h2⟩ := runBatch_quietD (w := { w with queue := [] }) w.queue hg.2 hf
+      have hg' := runBatch_good w.queue (w := { w with queue := [] }) (hg.with_queue rfl rfl) hg.2
+      obtain ⟨h3, h4⟩ := ih hg' h1
+      exact ⟨h3, h4.trans h2⟩
+
+theorem drain_quiet {t : Nat} {w : World} (hg : GoodW (calm t) w) (hf : w.tm.flag t = false) :
+    Quiet t w w.drain := by
+  obtain ⟨h1, h2⟩ := drainFuel_quietD (weights w.queue) hg hf
+  exact ⟨h1, fun f hf' _ => by rw [show w.drain.fired = w.fired from h2] at hf'; exact hf'⟩
+
+theorem process_quiet {t : Nat} {w : World} {e : Entry} (hg : GoodW (calm t) w) (he : e.tid ≠ t)
+    (hf : w.tm.flag t = false) :
     (w.process e).1.tm.flag t = false ∧
     ∀ f ∈ (w.process e).1.fired, f.tid = t → f ∈ w.fired := by
   unfold World.process
   simp only
   generalize hw1 : ({ w with fired := w.fired ++ [Fire.mk e.tid e.time e.seq w.now w.tm.counter],
                              out := w.out ++ [Ev.fire e.tid w.now e.time e.seq] } : World) = w1
-  have hk := deferAll_keeps w1 (w.body e.tid).defers
-  have hfl : (w1.deferAll (w.body e.tid).defers).tm.flag t = false := by rw [hk.flag, ← hw1]; exact hf
-  have hfi : ∀ f ∈ (w1.deferAll (w.body e.tid).defers).fired, f.tid = t → f ∈ w.fired := by
+  have hf1 : w1.tm.flag t = false := by subst hw1; exact hf
+  have hf2 := doActs_flag (w.body e.tid).acts (hg.1 e.tid).1 hf1
+  have hk1 := doActs_keepsQ w1 (w.body e.tid).acts
+  have hk := deferAll_keeps (w1.doActs (w.body e.tid).acts) (w.body e.tid).defers
+  have hfl : (World.deferAll (w1.doActs (w.body e.tid).acts) (w.body e.tid).defers).tm.flag t = false := by
+    rw [hk.flag]; exact hf2
+  have hfi : ∀ f ∈ (World.deferAll (w1.doActs (w.body e.tid).acts) (w.body e.tid).defers).fired,
+      f.tid = t → f ∈ w.fired := by
     intro f hf' ht
-    rw [hk.fired, ← hw1] at hf'
+    rw [hk.fired, hk1.fired, ← hw1] at hf'
     rcases List.mem_append.mp hf' with h | h
     · exact h
     · simp at h; subst h; exact absurd ht he
-  generalize w1.deferAll (w.body e.tid).defers = w2 at *
+  generalize World.deferAll (w1.doActs (w.body e.tid).acts) (w.body e.tid).defers = w2 at *
   split
   · exact ⟨installRecurring_flag_other _ _ _ he hfl, hfi⟩
   · exact ⟨hfl, hfi⟩
 
-theorem fireNext_quiet {t : Nat} {w : World} (h : WInv w) (hf : w.tm.flag t = false) :
-    Quiet t w w.fireNext.1 := by
+theorem fireNext_quiet {t : Nat} {w : World} (h : WInv w) (hg : GoodW (calm t) w)
+    (hf : w.tm.flag t = false) : Quiet t w w.fireNext.1 := by
   unfold World.fireNext
-  rcases hg : w.tm.getNext w.now with ⟨e?, d, tm'⟩
+  rcases hgn : w.tm.getNext w.now with ⟨e?, d, tm'⟩
   cases e? with
   | none =>
     simp only
-    obtain ⟨rfl, _, _, _⟩ := getNext_none hg
+    obtain ⟨rfl, _, _, _⟩ := getNext_none hgn
     exact ⟨hf, fun f hf' _ => hf'⟩
   | some e =>
     simp only
-    obtain ⟨_, _, hmem, _, _⟩ := getNext_some h.sched hg
+    obtain ⟨_, _, hmem, _, _⟩ := getNext_some h.sched hgn
     have het : e.tid ≠ t := by
       intro heq
       have := (h.sched.flag_iff t).mpr ⟨e, hmem, heq⟩
       rw [hf] at this; cases this
     have hfl' : tm'.flag t = false := by
-      unfold TM.getNext at hg
-      split at hg
-      · simp at hg
-      · split at hg
-        · simp only [Prod.mk.injEq] at hg
-          obtain ⟨_, _, rfl⟩ := hg
+      unfold TM.getNext at hgn
+      split at hgn
+      · simp at hgn
+      · split at hgn
+        · simp only [Prod.mk.injEq] at hgn
+          obtain ⟨_, _, rfl⟩ := hgn
           simp only [upd]; split <;> simp [hf]
-        · simp at hg
-    have := process_quiet (w := { w with tm := tm' }) (e := e) het hfl'
+        · simp at hgn
+    have := process_quiet (w := { w with tm := tm' }) (e := e) hg het hfl'
     split
     · exact this
     · exact this
 
-theorem drain_quiet {t : Nat} {w : World} (hf : w.tm.flag t = false) : Quiet t w w.drain :=
-  keeps_quiet (drain_keeps w) hf
-
-theorem runOnceLoop_quiet {t : Nat} (fuel : Nat) {w : World} (h : WInv w) (hf : w.tm.flag t = false) :
-    Quiet t w (w.runOnceLoop fuel).1 := by
+theorem runOnceLoop_quiet {t : Nat} (fuel : Nat) {w : World} (h : WInv w) (hg : GoodW (calm t) w)
+    (hf : w.tm.flag t = false) : Quiet t w (w.runOnceLoop fuel).1 := by
   induction fuel generalizing w with
   | zero => exact ⟨hf, fun f hf' _ => hf'⟩
   | succ n ih =>
     unfold World.runOnceLoop
     simp only
-    have q1 := fireNext_quiet h hf
-    have q2 := q1.trans (drain_quiet q1.1)
+    have q1 := fireNext_quiet h hg hf
+    have g1 := fireNext_good hg
+    have q2 := q1.trans (drain_quiet g1 q1.1)
     have hw := drain_winv (fireNext_winv h)
     split
-    · exact q2.trans (ih hw q2.1)
+    · exact q2.trans (ih hw (drain_good g1) q2.1)
     · exact q2
 
-theorem runLoop_quiet {t : Nat} (fuel T : Nat) {w : World} (h : WInv w) (hf : w.tm.flag t = false) :
-    Quiet t w (w.runLoop fuel T).1 := by
+theorem runLoop_quiet {t : Nat} (fuel T : Nat) {w : World} (h : WInv w) (hg : GoodW (calm t) w)
+    (hf : w.tm.flag t = false) : Quiet t w (w.runLoop fuel T).1 := by
   induction fuel generalizing w with
   | zero => exact ⟨hf, fun f hf' _ => hf'⟩
   | succ n ih =>
     unfold World.runLoop
     simp only
-    have q1 := fireNext_quiet h hf
+    have q1 := fireNext_quiet h hg hf
+    have g1 := fireNext_good hg
     have h1 := fireNext_winv h
     split
-    · exact q1.trans (ih h1 q1.1)
+    · exact ⟨hf, fun f hf' _ => hf'⟩
     · split
-      · have hw := drain_winv (setTrig_winv false h1)
-        have q2 : Quiet t w.fireNext.1 ({ w.fireNext.1 with tm := { w.fireNext.1.tm with trig := false } } : World).drain :=
-          drain_quiet (w := { w.fireNext.1 with tm := { w.fireNext.1.tm with trig := false } }) q1.1
-        exact (q1.trans q2).trans (ih hw q2.1)
+      · exact q1.trans (ih h1 g1 q1.1)
       · split
-        · have q2 : Quiet t w.fireNext.1 ({ w.fireNext.1 with now := max w.fireNext.1.now T, tm := { w.fireNext.1.tm with trig := true } } : World).drain :=
-            drain_quiet (w := { w.fireNext.1 with now := max w.fireNext.1.now T, tm := { w.fireNext.1.tm with trig := true } }) q1.1
-          exact q1.trans q2
-        · have hw := drain_winv (setNow_winv (w.fireNext.1.now + w.fireNext.1.timeout w.fireNext.2.1) h1)
-          have q2 : Quiet t w.fireNext.1 ({ w.fireNext.1 with now := w.fireNext.1.now + w.fireNext.1.timeout w.fireNext.2.1 } : World).drain :=
-            drain_quiet (w := { w.fireNext.1 with now := w.fireNext.1.now + w.fireNext.1.timeout w.fireNext.2.1 }) q1.1
-          exact (q1.trans q2).trans (ih hw q2.1)
+        · have hw := drain_winv (setTrig_winv false h1)
+          have q2 := drain_quiet (w := { w.fireNext.1 with tm := { w.fireNext.1.tm with trig := false } }) g1 q1.1
+          exact (q1.trans q2).trans (ih hw (drain_good (w := { w.fireNext.1 with tm := { w.fireNext.1.tm with trig := false } }) g1) q2.1)
+        · split
+          · have q2 := drain_quiet (w := { w.fireNext.1 with now := max w.fireNext.1.now T, running := false, tm := { w.fireNext.1.tm with trig := true } }) g1 q1.1
+            exact q1.trans q2
+          · have hw := drain_winv (setNow_winv (w.fireNext.1.now + w.fireNext.1.timeout w.fireNext.2.1) h1)
+            have q2 := drain_quiet (w := { w.fireNext.1 with now := w.fireNext.1.now + w.fireNext.1.timeout w.fireNext.2.1 }) g1 q1.1
+            exact (q1.trans q2).trans (ih hw (drain_good (w := { w.fireNext.1 with now := w.fireNext.1.now + w.fireNext.1.timeout w.fireNext.2.1 }) g1) q2.1)
 
 theorem api_quiet {t : Nat} {w : World} (r : TM × Option Raised) (hf : r.1.flag t = false) :
     Quiet t w (w.api r) := by
@@ -1202,8 +1620,8 @@ theorem api_quiet {t : Nat} {w : World} (r : TM × Option Raised) (hf : r.1.flag
   · exact ⟨hf, fun f hf' _ => hf'⟩
   · exact ⟨hf, fun f hf' _ => hf'⟩
 
-theorem step_quiet {t : Nat} {w : World} (op : Op) (h : WInv w) (hf : w.tm.flag t = false)
-    (ha : arms t op = false) : Quiet t w (w.step op).1 := by
+theorem step_quiet {t : Nat} {w : World} (op : Op) (h : WInv w) (hg : GoodW (calm t) w)
+    (hf : w.tm.flag t = false) (ha : arms t op = false) : Quiet t w (w.step op).1 := by
   cases op with
   | installAt tid x => exact api_quiet _ (installTask_flag_other _ _ _ (by simpa [arms] using ha) hf)
   | installAfter tid d => exact api_quiet _ (installTask_flag_other _ _ _ (by simpa [arms] using ha) hf)
@@ -1213,18 +1631,22 @@ theorem step_quiet {t : Nat} {w : World} (op : Op) (h : WInv w) (hf : w.tm.flag 
   | resume tid => exact api_quiet _ (install_flag_other (by simpa [arms] using ha) hf)
   | defer f => exact keeps_quiet (defer_keeps w f) hf
   | tick d => exact ⟨hf, fun f hf' _ => hf'⟩
-  | next => exact fireNext_quiet h hf
-  | advOnce d => exact runOnceLoop_quiet _ (w := { w with now := w.now + d }) (setNow_winv _ h) hf
-  | advRun d fuel => exact runLoop_quiet _ _ h hf
-  | jumpRun fuel => exact runLoop_quiet _ _ h hf
+  | next => exact fireNext_quiet h hg hf
+  | advOnce d fuel => exact runOnceLoop_quiet _ (w := { w with now := w.now + d }) (setNow_winv _ h) hg hf
+  | advRun d fuel =>
+    exact runLoop_quiet fuel (w.now + d) (w := { w with running := true }) (setRunning_winv true h) hg hf
+  | jumpRun fuel =>
+    exact runLoop_quiet fuel _ (w := { w with running := true }) (setRunning_winv true h) hg hf
 
-theorem run_quiet {t : Nat} {w : World} (ops : List Op) (h : WInv w) (hf : w.tm.flag t = false)
-    (ha : ∀ op ∈ ops, arms t op = false) : Quiet t w (w.run ops) := by
+theorem run_quiet {t : Nat} {w : World} (ops : List Op) (h : WInv w) (hg : GoodW (calm t) w)
+    (hf : w.tm.flag t = false) (ha : ∀ op ∈ ops, arms t op = false ∧ goodOp (calm t) op = true) :
+    Quiet t w (w.run ops) := by
   induction ops generalizing w with
   | nil => exact ⟨hf, fun f hf' _ => hf'⟩
   | cons op r ih =>
-    have q1 := step_quiet op h hf (ha op List.mem_cons_self)
-    exact q1.trans (ih (step_winv op h) q1.1 (fun o ho => ha o (List.mem_cons_of_mem _ ho)))
+    have q1 := step_quiet op h hg hf (ha op List.mem_cons_self).1
+    exact q1.trans (ih (step_winv op h) (step_good op hg (ha op List.mem_cons_self).2) q1.1
+      (fun o ho => ha o (List.mem_cons_of_mem _ ho)))
 
 /-- `suspend_task` leaves the task unflagged whenever the invariant holds
     (found: cleared; not found: it was not flagged) -/
@@ -1240,23 +1662,30 @@ theorem suspend_unflags {tm : TM} {fired : List Fire} (h : SInv tm fired) (t : N
 
 /-- **suspended_silent** — in any reachable state, suspend task `t`; whatever
     happens afterwards (time passing, other tasks being installed, suspended,
-    fired, raising, …), as long as nobody installs or resumes `t` it does not
-    fire: every firing of `t` in the log was already there before. -/
+    fired, raising; task bodies and deferred functions installing, moving and
+    suspending tasks or stopping the loop), as long as nobody — no operation,
+    no task body, no deferred function at any depth (`GoodW (calm t)`,
+    `goodOp (calm t)`) — installs or resumes `t`, it does not fire: every
+    firing of `t` in the log was already there before. -/
 theorem suspended_silent {w : World} (hw : Fresh w) (before after : List Op) (t : Nat)
-    (ha : ∀ op ∈ after, arms t op = false) :
+    (hg : GoodW (calm t) w) (hb : ∀ op ∈ before, goodOp (calm t) op = true)
+    (ha : ∀ op ∈ after, arms t op = false ∧ goodOp (calm t) op = true) :
     let v := w.run before
     ∀ f ∈ ((v.step (.suspend t)).1.run after).fired, f.tid = t → f ∈ v.fired := by
   intro v
   have hv : WInv v := reachable_winv hw before
+  have hgv : GoodW (calm t) v := run_good before hg hb
   have hs : WInv (v.step (.suspend t)).1 := step_winv _ hv
   have hfl : (v.step (.suspend t)).1.tm.flag t = false := suspend_unflags hv.sched t
-  exact (run_quiet after hs hfl ha).2
+  exact (run_quiet after hs hgv hfl ha).2
 
 /-- the same for a task that was never installed, or has fired and was not re-installed -/
 theorem unscheduled_silent {w : World} (hw : Fresh w) (before after : List Op) (t : Nat)
-    (hfl : (w.run before).tm.flag t = false) (ha : ∀ op ∈ after, arms t op = false) :
+    (hg : GoodW (calm t) w) (hb : ∀ op ∈ before, goodOp (calm t) op = true)
+    (hfl : (w.run before).tm.flag t = false)
+    (ha : ∀ op ∈ after, arms t op = false ∧ goodOp (calm t) op = true) :
     ∀ f ∈ ((w.run before).run after).fired, f.tid = t → f ∈ (w.run before).fired :=
-  (run_quiet after (reachable_winv hw before) hfl ha).2
+  (run_quiet after (reachable_winv hw before) (run_good before hg hb) hfl ha).2
 /-! ## a pass leaves nothing behind: completeness of run_once and run
 
   This is the "exactly once" half of `once_per_install` and the task half of the
@@ -1322,15 +1751,35 @@ theorem install_unflagged {tm : TM} {tid t : Nat} (ht : tm.ttime tid = some t) (
   rw [ht]
   simp [hf]
 
+/-- `process_task` of a body that leaves the scheduler alone -/
+def processP (w : World) (e : Entry) : World × Bool :=
+  let b := w.body e.tid
+  let w := { w with fired := w.fired ++ [Fire.mk e.tid e.time e.seq w.now w.tm.counter],
+                    out := w.out ++ [Ev.fire e.tid w.now e.time e.seq] }
+  let w := w.deferAll b.defers
+  if w.recurring e.tid then
+    let r := w.tm.installRecurring w.now e.tid none none
+    ({ w with tm := r.1 }, b.raises || r.2.isSome)
+  else (w, b.raises)
+
+theorem process_eq {w : World} {e : Entry} (ha : (w.body e.tid).acts = []) :
+    w.process e = processP w e := by
+  unfold World.process processP
+  simp only
+  rw [ha]
+  rfl
+
 /-- what `process_task` does to the heap of a just-popped (hence unflagged) task:
     nothing, or — recurring task, valid interval — one new entry strictly in
     the future, with the wake-up flag set -/
-theorem process_heap {w : World} {e : Entry} (hf : w.tm.flag e.tid = false) :
+theorem process_heap {w : World} {e : Entry} (ha : (w.body e.tid).acts = [])
+    (hf : w.tm.flag e.tid = false) :
     (w.process e).1.now = w.now ∧ (w.process e).1.spin = w.spin ∧
     ((w.process e).1.tm.heap = w.tm.heap ∨
      ((w.process e).1.tm.trig = true ∧
       ∃ t c, w.now < t ∧ (w.process e).1.tm.heap = ⟨t, c, e.tid⟩ :: w.tm.heap)) := by
-  unfold World.process
+  rw [process_eq ha]
+  unfold processP
   simp only
   generalize hw1 : ({ w with fired := w.fired ++ [Fire.mk e.tid e.time e.seq w.now w.tm.counter],
                              out := w.out ++ [Ev.fire e.tid w.now e.time e.seq] } : World) = w1
@@ -1361,12 +1810,34 @@ theorem process_heap {w : World} {e : Entry} (hf : w.tm.flag e.tid = false) :
         omega
   · exact ⟨hnow, hspin, Or.inl hheap⟩
 
+theorem process_running {w : World} {e : Entry} (ha : (w.body e.tid).acts = []) :
+    (w.process e).1.running = w.running := by
+  rw [process_eq ha]
+  unfold processP
+  simp only
+  have hk := deferAll_keeps ({ w with fired := w.fired ++ [Fire.mk e.tid e.time e.seq w.now w.tm.counter],
+                                      out := w.out ++ [Ev.fire e.tid w.now e.time e.seq] } : World) (w.body e.tid).defers
+  split <;> exact hk.running
+
+/-- bodies that leave the scheduler alone do not stop the loop -/
+theorem fireNext_running {w : World} (hp : Passive w) : w.fireNext.1.running = w.running := by
+  unfold World.fireNext
+  rcases w.tm.getNext w.now with ⟨e?, d, tm'⟩
+  cases e? with
+  | none => rfl
+  | some e =>
+    simp only
+    have := process_running (w := { w with tm := tm' }) (e := e) (hp.body_acts e.tid)
+    split
+    · exact this
+    · exact this
+
 theorem emit_same (w : World) (e : Ev) : (w.emit e).tm = w.tm ∧ (w.emit e).now = w.now ∧
     (w.emit e).spin = w.spin ∧ (w.emit e).queue = w.queue := ⟨rfl, rfl, rfl, rfl⟩
 
 /-- everything the two loops need to know about one `get_next_task` +
     `process_task` -/
-theorem fireNext_spec {w : World} (h : WInv w) :
+theorem fireNext_spec {w : World} (h : WInv w) (hp : Passive w) :
     w.fireNext.1.now = w.now ∧ w.fireNext.1.spin = w.spin ∧
     -- run_once: it continues only while something was popped and the next head is due
     (w.fireNext.2.1 ≠ some 0 → NoDue w.fireNext.1) ∧
@@ -1400,7 +1871,7 @@ theorem fireNext_spec {w : World} (h : WInv w) :
           obtain ⟨rfl, _, rfl⟩ := hg
           simp [upd]
         · simp at hg
-    obtain ⟨hnow, hspin, hheap⟩ := process_heap (w := { w with tm := tm' }) (e := e) hfl
+    obtain ⟨hnow, hspin, hheap⟩ := process_heap (w := { w with tm := tm' }) (e := e) (hp.body_acts e.tid) hfl
     -- the result, with or without the logged exception
     have key : ∀ v : World, v.tm = (World.process { w with tm := tm' } e).1.tm →
         v.now = (World.process { w with tm := tm' } e).1.now →
@@ -1450,11 +1921,12 @@ theorem fireNext_spec {w : World} (h : WInv w) :
     · exact key _ rfl rfl rfl
     · exact key _ rfl rfl rfl
 
-theorem drain_same (w : World) : w.drain.tm.heap = w.tm.heap ∧ w.drain.now = w.now ∧ w.drain.spin = w.spin :=
-  ⟨(drain_keeps w).heap, (drain_keeps w).now, (drain_keeps w).spin⟩
+theorem drain_same (w : World) (hp : Passive w) :
+    w.drain.tm.heap = w.tm.heap ∧ w.drain.now = w.now ∧ w.drain.spin = w.spin ∧ w.drain.running = w.running :=
+  ⟨(drain_keeps w hp.2).heap, (drain_keeps w hp.2).now, (drain_keeps w hp.2).spin, (drain_keeps w hp.2).running⟩
 
 /-- the `while delta == 0.0` loop with enough fuel runs to completion -/
-theorem runOnceLoop_complete (fuel : Nat) {w : World} (h : WInv w)
+theorem runOnceLoop_complete (fuel : Nat) {w : World} (h : WInv w) (hp : Passive w)
     (hfuel : dueCount w.now w.tm.heap < fuel) :
     (w.runOnceLoop fuel).2 = true ∧ NoDue (w.runOnceLoop fuel).1 ∧ (w.runOnceLoop fuel).1.queue = [] ∧
     (w.runOnceLoop fuel).1.now = w.now := by
@@ -1463,12 +1935,13 @@ theorem runOnceLoop_complete (fuel : Nat) {w : World} (h : WInv w)
   | succ n ih =>
     unfold World.runOnceLoop
     simp only
-    obtain ⟨hnow, _, hnd, hcnt, _⟩ := fireNext_spec h
-    obtain ⟨dh, dn, _⟩ := drain_same w.fireNext.1
+    obtain ⟨hnow, _, hnd, hcnt, _⟩ := fireNext_spec h hp
+    have hp1 := fireNext_good hp
+    obtain ⟨dh, dn, _⟩ := drain_same w.fireNext.1 hp1
     split
     · rename_i hd
       have hw := drain_winv (fireNext_winv h)
-      have := ih hw (by rw [dh, dn, hnow]; have := hcnt hd; omega)
+      have := ih hw (drain_good hp1) (by rw [dh, dn, hnow]; have := hcnt hd; omega)
       exact ⟨this.1, this.2.1, this.2.2.1, by rw [this.2.2.2, dn, hnow]⟩
     · rename_i hd
       refine ⟨rfl, ?_, drain_queue_empty _, by rw [dn, hnow]⟩
@@ -1479,63 +1952,78 @@ theorem runOnceLoop_complete (fuel : Nat) {w : World} (h : WInv w)
 theorem dueCount_le_length (now : Nat) (h : List Entry) : dueCount now h ≤ h.length :=
   List.countP_le_length
 
-/-- **run_once is complete**: the fuel of `World.runOnce` is never exhausted;
-    on return nothing queued is due and nothing is left in the deferred queue —
-    whichever tasks or deferred functions raised -/
-theorem runOnce_complete {w : World} (h : WInv w) :
-    w.runOnce.2 = true ∧ NoDue w.runOnce.1 ∧ w.runOnce.1.queue = [] ∧ w.runOnce.1.now = w.now := by
+/-- **run_once is complete** when the scripted code leaves the scheduler alone:
+    one iteration per heap entry, plus one, is enough fuel; on return nothing
+    queued is due and nothing is left in the deferred queue — whichever tasks or
+    deferred functions raised -/
+theorem runOnce_complete {w : World} (h : WInv w) (hp : Passive w) (fuel : Nat)
+    (hfuel : w.tm.heap.length < fuel) :
+    (w.runOnce fuel).2 = true ∧ NoDue (w.runOnce fuel).1 ∧ (w.runOnce fuel).1.queue = [] ∧
+    (w.runOnce fuel).1.now = w.now := by
   unfold World.runOnce
-  exact runOnceLoop_complete _ h (by have := dueCount_le_length w.now w.tm.heap; omega)
+  exact runOnceLoop_complete _ h hp (by have := dueCount_le_length w.now w.tm.heap; omega)
 
-theorem runLoop_raised {w : World} (n T : Nat) (hr : w.fireNext.2.2 = true) :
+theorem runLoop_stopped {w : World} (n T : Nat) (hr : w.running = false) :
+    w.runLoop (n + 1) T = (w, 2) := by
+  rw [World.runLoop]; simp [hr]
+
+theorem runLoop_raised {w : World} (n T : Nat) (hrun : w.running = true) (hr : w.fireNext.2.2 = true) :
     w.runLoop (n + 1) T = w.fireNext.1.runLoop n T := by
-  rw [World.runLoop]; simp only [hr, if_true]
+  rw [World.runLoop]; simp [hrun, hr]
 
-theorem runLoop_trig {w : World} (n T : Nat) (hr : w.fireNext.2.2 = false)
+theorem runLoop_trig {w : World} (n T : Nat) (hrun : w.running = true) (hr : w.fireNext.2.2 = false)
     (ht : w.fireNext.1.tm.trig = true) :
     w.runLoop (n + 1) T =
       World.runLoop n T ({ w.fireNext.1 with tm := { w.fireNext.1.tm with trig := false } } : World).drain := by
-  rw [World.runLoop]; simp [hr, ht]
+  rw [World.runLoop]; simp [hrun, hr, ht]
 
-theorem runLoop_stop {w : World} (n T : Nat) (hr : w.fireNext.2.2 = false)
+theorem runLoop_stop {w : World} (n T : Nat) (hrun : w.running = true) (hr : w.fireNext.2.2 = false)
     (ht : w.fireNext.1.tm.trig = false)
     (hgt : w.fireNext.1.now + w.fireNext.1.timeout w.fireNext.2.1 > T) :
     w.runLoop (n + 1) T =
-      (({ w.fireNext.1 with now := max w.fireNext.1.now T,
-                            tm := { w.fireNext.1.tm with trig := true } } : World).drain, true) := by
-  rw [World.runLoop]; simp [hr, ht, hgt]
+      (({ w.fireNext.1 with now := max w.fireNext.1.now T, running := false,
+                            tm := { w.fireNext.1.tm with trig := true } } : World).drain, 1) := by
+  rw [World.runLoop]; simp [hrun, hr, ht, hgt]
 
-theorem runLoop_wait {w : World} (n T : Nat) (hr : w.fireNext.2.2 = false)
+theorem runLoop_wait {w : World} (n T : Nat) (hrun : w.running = true) (hr : w.fireNext.2.2 = false)
     (ht : w.fireNext.1.tm.trig = false)
     (hgt : ¬ w.fireNext.1.now + w.fireNext.1.timeout w.fireNext.2.1 > T) :
     w.runLoop (n + 1) T =
       World.runLoop n T ({ w.fireNext.1 with now := w.fireNext.1.now + w.fireNext.1.timeout w.fireNext.2.1 } : World).drain := by
-  rw [World.runLoop]; simp only [hr, ht, hgt]; simp
+  rw [World.runLoop]; simp only [hrun, hr, ht, hgt]; simp
 
-/-- **run is complete**: if the loop reaches `stop()` (second component `true`),
-    the clock is at `T`, nothing queued is due at `T` and the deferred queue is
-    empty — whichever tasks or deferred functions raised -/
-theorem runLoop_complete (fuel T : Nat) {w : World} (h : WInv w) (hT : w.now ≤ T)
-    (hdone : (w.runLoop fuel T).2 = true) :
+/-- **run is complete** when the scripted code leaves the scheduler alone: the
+    loop is never stopped from inside (result code 2 does not occur), and if it
+    reaches the stub's `stop()` (result code 1) the clock is at `T`, nothing
+    queued is due at `T` and the deferred queue is empty — whichever tasks or
+    deferred functions raised -/
+theorem runLoop_complete (fuel T : Nat) {w : World} (h : WInv w) (hp : Passive w)
+    (hrun : w.running = true) (hT : w.now ≤ T) (hdone : (w.runLoop fuel T).2 ≠ 0) :
+    (w.runLoop fuel T).2 = 1 ∧
     (w.runLoop fuel T).1.now = T ∧ NoDue (w.runLoop fuel T).1 ∧ (w.runLoop fuel T).1.queue = [] := by
   induction fuel generalizing w with
   | zero => simp [World.runLoop] at hdone
   | succ n ih =>
-    obtain ⟨hnow, hspin, _, _, htrig⟩ := fireNext_spec h
+    obtain ⟨hnow, hspin, _, _, htrig⟩ := fireNext_spec h hp
     have h1 := fireNext_winv h
+    have hp1 := fireNext_good hp
+    have hrun1 : w.fireNext.1.running = true := by rw [fireNext_running hp]; exact hrun
     by_cases hr : w.fireNext.2.2 = true
-    · rw [runLoop_raised n T hr] at hdone ⊢
-      exact ih h1 (by rw [hnow]; exact hT) hdone
+    · rw [runLoop_raised n T hrun hr] at hdone ⊢
+      exact ih h1 hp1 hrun1 (by rw [hnow]; exact hT) hdone
     · have hr' : w.fireNext.2.2 = false := by simpa using hr
       by_cases htr : w.fireNext.1.tm.trig = true
-      · rw [runLoop_trig n T hr' htr] at hdone ⊢
+      · rw [runLoop_trig n T hrun hr' htr] at hdone ⊢
         have hw := drain_winv (setTrig_winv false h1)
-        exact ih hw (by rw [(drain_same _).2.1]; simp only; rw [hnow]; exact hT) hdone
+        have hp2 : Passive ({ w.fireNext.1 with tm := { w.fireNext.1.tm with trig := false } } : World) := hp1
+        obtain ⟨_, dn, _, dr⟩ := drain_same _ hp2
+        exact ih hw (drain_good hp2) (by rw [dr]; exact hrun1) (by rw [dn]; simp only; rw [hnow]; exact hT) hdone
       · have htr' : w.fireNext.1.tm.trig = false := by simpa using htr
         by_cases hgt : w.fireNext.1.now + w.fireNext.1.timeout w.fireNext.2.1 > T
-        · rw [runLoop_stop n T hr' htr' hgt]
-          obtain ⟨dh, dn, _⟩ := drain_same ({ w.fireNext.1 with now := max w.fireNext.1.now T, tm := { w.fireNext.1.tm with trig := true } } : World)
-          refine ⟨?_, ?_, drain_queue_empty _⟩
+        · rw [runLoop_stop n T hrun hr' htr' hgt]
+          have hp2 : Passive ({ w.fireNext.1 with now := max w.fireNext.1.now T, running := false, tm := { w.fireNext.1.tm with trig := true } } : World) := hp1
+          obtain ⟨dh, dn, _, _⟩ := drain_same _ hp2
+          refine ⟨rfl, ?_, ?_, drain_queue_empty _⟩
           · simp only; rw [dn]; simp only; rw [hnow]; omega
           · intro e he
             simp only at he ⊢
@@ -1546,9 +2034,11 @@ theorem runLoop_complete (fuel T : Nat) {w : World} (h : WInv w) (hT : w.now ≤
               unfold World.timeout; rw [hspin]
             rw [hnow, hto] at hgt
             rw [hnow]; omega
-        · rw [runLoop_wait n T hr' htr' hgt] at hdone ⊢
+        · rw [runLoop_wait n T hrun hr' htr' hgt] at hdone ⊢
           have hw := drain_winv (setNow_winv (w.fireNext.1.now + w.fireNext.1.timeout w.fireNext.2.1) h1)
-          exact ih hw (by rw [(drain_same _).2.1]; simp only; omega) hdone
+          have hp2 : Passive ({ w.fireNext.1 with now := w.fireNext.1.now + w.fireNext.1.timeout w.fireNext.2.1 } : World) := hp1
+          obtain ⟨_, dn, _, dr⟩ := drain_same _ hp2
+          exact ih hw (drain_good hp2) (by rw [dr]; exact hrun1) (by rw [dn]; simp only; omega) hdone
 /-! ## deferred functions: the call sequence does not depend on who raises -/
 
 /-- breadth-first ids of a submission forest — defined without looking at `raises` -/
@@ -1571,7 +2061,8 @@ theorem callFn_calls (w : World) (f : Fn) :
     (w.callFn f).failed = w.failed ++ (if f.raises then [f.id] else []) := by
   unfold World.callFn
   simp only
-  split <;> simp [deferAll_calls, *]
+  have hk := doActs_keepsQ ({ w with calls := w.calls ++ [f.id], out := w.out ++ [Ev.call f.id] } : World) f.acts
+  split <;> simp [deferAll_calls, hk.calls, hk.failed, *]
 
 theorem runBatch_calls (w : World) (b : List Fn) :
     (w.runBatch b).calls = w.calls ++ b.map Fn.id ∧
@@ -1618,7 +2109,7 @@ theorem drain_calls (w : World) : w.drain.calls = w.calls ++ bfs (weights w.queu
 mutual
   /-- the same function, not raising -/
   def stripFn : Fn → Fn
-    | .mk i _ kids => .mk i false (stripAll kids)
+    | .mk i _ kids acts => .mk i false (stripAll kids) acts
   def stripAll : List Fn → List Fn
     | [] => []
     | f :: r => stripFn f :: stripAll r
@@ -1647,7 +2138,7 @@ theorem stripAll_nil {q : List Fn} : stripAll q = [] ↔ q = [] := by
 
 mutual
   theorem strip_weight : ∀ f : Fn, (stripFn f).weight = f.weight
-    | .mk i r kids => by simp [stripFn, Fn.weight, stripAll_weights kids]
+    | .mk i r kids acts => by simp [stripFn, Fn.weight, stripAll_weights kids]
   theorem stripAll_weights : ∀ q : List Fn, weights (stripAll q) = weights q
     | [] => by simp [stripAll]
     | f :: r => by simp [stripAll, weights, strip_weight f, stripAll_weights r]
@@ -1675,57 +2166,74 @@ theorem deferred_isolated (w : World) :
   simp only
   rw [stripAll_weights, bfs_strip]
 
-/-! ## the exactly-once clauses after a complete pass -/
+/-! ## the exactly-once clauses after a complete pass
+
+  Hypothesis of this section: the scripted code leaves the scheduler alone
+  (`Passive`, and `goodOp noAct` for the functions deferred by the history).
+  For bodies that install tasks themselves the statements are false of the
+  code as it stands — `run_once` decides whether to go round again before the
+  body runs, so a task installed for "now" by the last body of a pass waits
+  for the next pass — and the harness oracle checks the weaker form (what was
+  pending and due at the start of the pass has fired). -/
 
 /-- after `clock += d; run_once()` in any reachable state: the pass completes,
     nothing queued is due, the deferred queue is empty and every function ever
     submitted has been called exactly once in submission order -/
-theorem advOnce_complete {w : World} (hw : Fresh w) (ops : List Op) (d : Nat) :
-    let v := ((w.run ops).step (.advOnce d))
+theorem advOnce_complete {w : World} (hw : Fresh w) (hp : Passive w) (ops : List Op)
+    (hops : ∀ op ∈ ops, goodOp noAct op = true) (d fuel : Nat)
+    (hfuel : (w.run ops).tm.heap.length < fuel) :
+    let v := ((w.run ops).step (.advOnce d fuel))
     v.2 = some 1 ∧ NoDue v.1 ∧ v.1.queue = [] ∧ v.1.calls = v.1.subs := by
   intro v
   have h0 : WInv ({ w.run ops with now := (w.run ops).now + d } : World) := setNow_winv _ (reachable_winv hw ops)
-  obtain ⟨h1, h2, h3, _⟩ := runOnce_complete h0
+  have hp0 : Passive ({ w.run ops with now := (w.run ops).now + d } : World) := run_good ops hp hops
+  obtain ⟨h1, h2, h3, _⟩ := runOnce_complete h0 hp0 fuel hfuel
   have hv : WInv v.1 := step_winv _ (reachable_winv hw ops)
   have hf := hv.fifo
   unfold DInv at hf
   refine ⟨?_, h2, h3, ?_⟩
-  · show some (if (World.runOnce _).2 then 1 else 0) = some 1
+  · show some (if (World.runOnce _ fuel).2 then 1 else 0) = some 1
     rw [h1]; rfl
   · have h3' : v.1.queue = [] := h3
     rw [hf, h3']; simp
 
-/-- the same for `run()` until `now + d`, provided the loop reached `stop()` -/
-theorem advRun_complete {w : World} (hw : Fresh w) (ops : List Op) (d fuel : Nat)
-    (hdone : ((w.run ops).step (.advRun d fuel)).2 = some 1) :
+/-- the same for `run()` until `now + d`, provided the fuel did not run out:
+    the loop was stopped by the stub at `now + d` (never from inside) -/
+theorem advRun_complete {w : World} (hw : Fresh w) (hp : Passive w) (ops : List Op)
+    (hops : ∀ op ∈ ops, goodOp noAct op = true) (d fuel : Nat)
+    (hdone : ((w.run ops).step (.advRun d fuel)).2 ≠ some 0) :
     let v := ((w.run ops).step (.advRun d fuel))
-    v.1.now = (w.run ops).now + d ∧ NoDue v.1 ∧ v.1.queue = [] ∧ v.1.calls = v.1.subs := by
+    v.2 = some 1 ∧ v.1.now = (w.run ops).now + d ∧ NoDue v.1 ∧ v.1.queue = [] ∧ v.1.calls = v.1.subs := by
   intro v
-  have h0 : WInv (w.run ops) := reachable_winv hw ops
-  have hd : ((w.run ops).runLoop fuel ((w.run ops).now + d)).2 = true := by
-    have : (some (if ((w.run ops).runLoop fuel ((w.run ops).now + d)).2 then 1 else 0) : Option Nat) = some 1 := hdone
-    cases hb : ((w.run ops).runLoop fuel ((w.run ops).now + d)).2 with
-    | true => rfl
-    | false => rw [hb] at this; simp at this
-  obtain ⟨h1, h2, h3⟩ := runLoop_complete fuel _ h0 (Nat.le_add_right _ _) hd
-  have hv : WInv v.1 := step_winv _ h0
+  have h0 : WInv ({ w.run ops with running := true } : World) := setRunning_winv true (reachable_winv hw ops)
+  have hp0 : Passive ({ w.run ops with running := true } : World) := run_good ops hp hops
+  have hd : (({ w.run ops with running := true } : World).runLoop fuel ((w.run ops).now + d)).2 ≠ 0 := by
+    intro h; apply hdone
+    show some (({ w.run ops with running := true } : World).runLoop fuel ((w.run ops).now + d)).2 = some 0
+    rw [h]
+  obtain ⟨h1, h2, h3, h4⟩ := runLoop_complete fuel _ h0 hp0 rfl (Nat.le_add_right _ _) hd
+  have hv : WInv v.1 := step_winv _ (reachable_winv hw ops)
   have hf := hv.fifo
   unfold DInv at hf
-  refine ⟨h1, h2, h3, ?_⟩
-  have h3' : v.1.queue = [] := h3
-  rw [hf, h3']; simp
+  refine ⟨?_, h2, h3, h4, ?_⟩
+  · show some (({ w.run ops with running := true } : World).runLoop fuel ((w.run ops).now + d)).2 = some 1
+    rw [h1]
+  · have h4' : v.1.queue = [] := h4
+    rw [hf, h4']; simp
 
 /-- **once_per_install** (exactly once): after a complete pass, every
     installation ever made has either fired (once: `once_per_install`), or was
     deleted by suspend_task / replaced by a re-install, or is queued for a time
     that has not come yet -/
-theorem fires_exactly_once {w : World} (hw : Fresh w) (ops : List Op) (d : Nat) (s : Nat) :
-    let v := ((w.run ops).step (.advOnce d)).1
+theorem fires_exactly_once {w : World} (hw : Fresh w) (hp : Passive w) (ops : List Op)
+    (hops : ∀ op ∈ ops, goodOp noAct op = true) (d fuel : Nat)
+    (hfuel : (w.run ops).tm.heap.length < fuel) (s : Nat) :
+    let v := ((w.run ops).step (.advOnce d fuel)).1
     s < v.tm.counter →
       s ∈ v.fired.map (·.seq) ∨ s ∈ v.tm.removed ∨ ∃ e ∈ v.tm.heap, e.seq = s ∧ v.now < e.time := by
   intro v hs
   have hv : WInv v := step_winv _ (reachable_winv hw ops)
-  have hnd : NoDue v := (advOnce_complete hw ops d).2.1
+  have hnd : NoDue v := (advOnce_complete hw hp ops hops d fuel hfuel).2.1
   have := hv.sched.part.mem_iff.mpr (List.mem_range.mpr hs)
   simp only [List.mem_append] at this
   rcases this with (h | h) | h
@@ -1733,6 +2241,7 @@ theorem fires_exactly_once {w : World} (hw : Fresh w) (ops : List Op) (d : Nat) 
     exact Or.inr (Or.inr ⟨e, he, rfl, hnd e he⟩)
   · exact Or.inl h
   · exact Or.inr (Or.inl h)
+
 /-! ## one pass of run_once fires in sorted order
 
   The plain reading of the first clause: the firings of a single `run_once()`
@@ -1768,9 +2277,11 @@ theorem process_fired (w : World) (e : Entry) :
   simp only
   generalize hw1 : ({ w with fired := w.fired ++ [Fire.mk e.tid e.time e.seq w.now w.tm.counter],
                              out := w.out ++ [Ev.fire e.tid w.now e.time e.seq] } : World) = w1
-  have hk := deferAll_keeps w1 (w.body e.tid).defers
-  have : (w1.deferAll (w.body e.tid).defers).fired = w.fired ++ [⟨e.tid, e.time, e.seq, w.now, w.tm.counter⟩] := by
-    rw [hk.fired, ← hw1]
+  have hk1 := doActs_keepsQ w1 (w.body e.tid).acts
+  have hk := deferAll_keeps (w1.doActs (w.body e.tid).acts) (w.body e.tid).defers
+  have : (World.deferAll (w1.doActs (w.body e.tid).acts) (w.body e.tid).defers).fired
+      = w.fired ++ [⟨e.tid, e.time, e.seq, w.now, w.tm.counter⟩] := by
+    rw [hk.fired, hk1.fired, ← hw1]
   split <;> exact this
 
 theorem getNext_counter {tm tm' : TM} {now : Nat} {e? : Option Entry} {d : Option Nat}
@@ -1782,10 +2293,11 @@ theorem getNext_counter {tm tm' : TM} {now : Nat} {e? : Option Entry} {d : Optio
     · simp only [Prod.mk.injEq] at hg; obtain ⟨_, _, rfl⟩ := hg; rfl
     · simp only [Prod.mk.injEq] at hg; obtain ⟨_, _, rfl⟩ := hg; rfl
 
-theorem fireNext_late {c0 : Nat} {w : World} (h : WInv w) (hl : Late c0 w) (hc : c0 ≤ w.tm.counter) :
+theorem fireNext_late {c0 : Nat} {w : World} (h : WInv w) (hp : Passive w) (hl : Late c0 w)
+    (hc : c0 ≤ w.tm.counter) :
     Late c0 w.fireNext.1 ∧ NewFires c0 w.now w w.fireNext.1 ∧ c0 ≤ w.fireNext.1.tm.counter := by
   have hw' := fireNext_winv h
-  obtain ⟨hnow, _, _, _, _⟩ := fireNext_spec h
+  obtain ⟨hnow, _, _, _, _⟩ := fireNext_spec h hp
   unfold World.fireNext at hw' hnow ⊢
   rcases hg : w.tm.getNext w.now with ⟨e?, d, tm'⟩
   rw [hg] at hw' hnow
@@ -1811,7 +2323,7 @@ theorem fireNext_late {c0 : Nat} {w : World} (h : WInv w) (hl : Late c0 w) (hc :
           obtain ⟨rfl, _, rfl⟩ := hg
           simp [upd]
         · simp at hg
-    obtain ⟨_, _, hheap⟩ := process_heap (w := { w with tm := tm' }) (e := e) hfl
+    obtain ⟨_, _, hheap⟩ := process_heap (w := { w with tm := tm' }) (e := e) (hp.body_acts e.tid) hfl
     have hfired := process_fired { w with tm := tm' } e
     have key : ∀ v : World, v.tm = (World.process { w with tm := tm' } e).1.tm →
         v.fired = (World.process { w with tm := tm' } e).1.fired → v.now = w.now → WInv v →
@@ -1846,45 +2358,48 @@ theorem fireNext_late {c0 : Nat} {w : World} (h : WInv w) (hl : Late c0 w) (hc :
       simp only [hr] at hw' hnow
       exact key _ rfl rfl hnow hw'
 
-theorem runOnceLoop_late (fuel : Nat) {c0 : Nat} {w : World} (h : WInv w) (hl : Late c0 w)
-    (hc : c0 ≤ w.tm.counter) : NewFires c0 w.now w (w.runOnceLoop fuel).1 := by
+theorem runOnceLoop_late (fuel : Nat) {c0 : Nat} {w : World} (h : WInv w) (hp : Passive w)
+    (hl : Late c0 w) (hc : c0 ≤ w.tm.counter) : NewFires c0 w.now w (w.runOnceLoop fuel).1 := by
   induction fuel generalizing w with
   | zero => exact NewFires.refl _ _ _
   | succ n ih =>
     unfold World.runOnceLoop
     simp only
-    obtain ⟨hl1, hn1, hc1⟩ := fireNext_late h hl hc
-    obtain ⟨hnow, _⟩ := fireNext_spec h
-    have hk := drain_keeps w.fireNext.1
+    obtain ⟨hl1, hn1, hc1⟩ := fireNext_late h hp hl hc
+    obtain ⟨hnow, _⟩ := fireNext_spec h hp
+    have hp1 := fireNext_good hp
+    have hk := drain_keeps w.fireNext.1 hp1.2
     have hn2 : NewFires c0 w.now w w.fireNext.1.drain := hn1.trans (keeps_newFires hk)
     split
     · have hw := drain_winv (fireNext_winv h)
       have hl2 : Late c0 w.fireNext.1.drain := by
         intro x hx hcx; rw [hk.heap] at hx; rw [hk.now]; exact hl1 x hx hcx
-      have := ih hw hl2 (by rw [hk.counter]; exact hc1)
+      have := ih hw (drain_good hp1) hl2 (by rw [hk.counter]; exact hc1)
       rw [hk.now, hnow] at this
       exact hn2.trans this
     · exact hn2
 
 /-- **fire_order, one pass** — the firings of a `run_once()` pass in any
     reachable state are strictly sorted by `(due, installation number)`, and all
-    happen at the time of the pass -/
-theorem runOnce_pass_sorted {w : World} (h : WInv w) :
-    ∃ new, w.runOnce.1.fired = w.fired ++ new ∧
+    happen at the time of the pass (bodies that leave the scheduler alone; a
+    body that installs a task in the past may of course make it fire after a
+    later-due one) -/
+theorem runOnce_pass_sorted {w : World} (h : WInv w) (hp : Passive w) (fuel : Nat) :
+    ∃ new, (w.runOnce fuel).1.fired = w.fired ++ new ∧
       new.Pairwise (fun f g => keyLt f.due f.seq g.due g.seq) ∧ ∀ f ∈ new, f.now = w.now ∧ f.due ≤ w.now := by
   have hl : Late w.tm.counter w := by
     intro e he hce; have := h.sched.heap_seq_lt he; omega
-  obtain ⟨new, hnew, hp⟩ := runOnceLoop_late (w.tm.heap.length + 1) h hl (Nat.le_refl _)
+  obtain ⟨new, hnew, hq⟩ := runOnceLoop_late fuel h hp hl (Nat.le_refl _)
   refine ⟨new, hnew, ?_, ?_⟩
-  · have hord := (runOnceLoop_winv (w.tm.heap.length + 1) h).sched.order
+  · have hord := (runOnceLoop_winv fuel h).sched.order
     rw [hnew] at hord
     have := (List.pairwise_append.mp hord).2.1
     refine List.Pairwise.imp_of_mem ?_ this
     intro f g hf hg hfg
-    exact hfg (by have := hp f hf; have := hp g hg; omega)
+    exact hfg (by have := hq f hf; have := hq g hg; omega)
   · intro f hf
-    have hearly := (runOnceLoop_winv (w.tm.heap.length + 1) h).sched.early f (by rw [hnew]; exact List.mem_append_right _ hf)
-    have := (hp f hf).2.2
+    have hearly := (runOnceLoop_winv fuel h).sched.early f (by rw [hnew]; exact List.mem_append_right _ hf)
+    have := (hq f hf).2.2
     exact ⟨this, by omega⟩
 
 /-! ## refinement: the heap-as-a-list is an abstract sorted multiset of deadlines
@@ -2049,16 +2564,25 @@ section Examples
     child), one recurring task (id 3) -/
 def demoWorld : World :=
   { recurring := fun t => t == 3,
-    body := fun t => if t == 1 then { raises := true, defers := [Fn.mk 7 true [Fn.mk 8 false []]] } else {} }
+    body := fun t => if t == 1 then { raises := true, defers := [Fn.mk 7 true [Fn.mk 8 false [] []] []] } else {} }
 
 example : Fresh demoWorld := by
   refine ⟨rfl, rfl, rfl, fun _ => rfl, rfl, rfl, rfl, rfl⟩
 
+/-- `Passive`: the hypothesis of the completeness theorems holds for it -/
+example : Passive demoWorld := by
+  refine ⟨fun t => ?_, rfl⟩
+  unfold demoWorld
+  simp only
+  split <;> decide
+
 def demoOps : List Op :=
   [.installAt 0 500000, .installAfter 1 500000, .installAt 2 500000, .installRec 3 (some 300000) none,
    .installBare 0,                       -- re-install: task 0 now ties AFTER tasks 1 and 2
-   .suspend 2, .defer (Fn.mk 1 true []), .defer (Fn.mk 2 false []),
-   .advOnce 500000, .resume 2, .advRun 1000000 100]
+   .suspend 2, .defer (Fn.mk 1 true [] []), .defer (Fn.mk 2 false [] []),
+   .advOnce 500000 10, .resume 2, .advRun 1000000 100]
+
+example : ∀ op ∈ demoOps, goodOp noAct op = true := by decide
 
 /-- the history fires the recurring task at 300000 (late, at 500000), then
     task 1 (raises), then task 0 (re-installed, so after task 1); task 2 was
@@ -2074,13 +2598,52 @@ example : (demoWorld.run demoOps).calls = [1, 2, 7, 8] ∧ (demoWorld.run demoOp
     (demoWorld.run demoOps).failed = [1, 7] ∧ (demoWorld.run demoOps).tm.removed = [0, 2] := by
   decide +kernel
 
-/-- the hypothesis of `advRun_complete` is met: the loop reaches `stop()` -/
-example : ((demoWorld.run (demoOps.take 10)).step (.advRun 1000000 100)).2 = some 1 := by
+/-- the hypotheses of `advOnce_complete` / `advRun_complete` are met: enough
+    fuel; the loop reaches the stub's `stop()` -/
+example : (demoWorld.run (demoOps.take 8)).tm.heap.length < 10 ∧
+    ((demoWorld.run (demoOps.take 10)).step (.advRun 1000000 100)).2 = some 1 := by
   decide +kernel
 
 /-- `suspended_silent`: the hypothesis "nobody arms task 2" holds for a non-trivial tail -/
-example : ∀ op ∈ [Op.advOnce 500000, Op.installAt 0 7, Op.advRun 1000000 100], arms 2 op = false := by
+example : ∀ op ∈ [Op.advOnce 500000 10, Op.installAt 0 7, Op.advRun 1000000 100],
+    arms 2 op = false ∧ goodOp (calm 2) op = true := by
   decide
+
+/-- a RE-ENTRANT world: task 0 re-arms itself 0.5 s later from inside its own
+    process_task and then raises (retry timer); task 1's body moves task 0, a
+    function it defers suspends task 2 and stops the loop.  Nobody installs
+    task 2 — `GoodW (calm 2)` — so `suspended_silent` applies to task 2. -/
+def reWorld : World :=
+  { body := fun t =>
+      if t == 0 then { raises := true, acts := [.installAfter 0 500000] }
+      else if t == 1 then { acts := [.installAt 0 2000000],
+                            defers := [Fn.mk 5 false [Fn.mk 6 false [] []] [.suspend 2, .stop]] }
+      else {} }
+
+example : Fresh reWorld ∧ GoodW (calm 2) reWorld := by
+  refine ⟨⟨rfl, rfl, rfl, fun _ => rfl, rfl, rfl, rfl, rfl⟩, fun t => ?_, rfl⟩
+  unfold reWorld
+  simp only
+  split
+  · decide
+  · split <;> decide
+
+def reOps : List Op :=
+  [.installAt 0 500000, .installAt 1 500000, .installAt 2 1000000,
+   .advRun 500000 100,        -- 0 fires, re-arms for 1000000, raises; 1 fires, moves 0 to 2000000;
+                              -- fn 5 suspends 2 and stops the loop; its child 6 is still called
+   .installAt 0 1500000,      -- move the re-armed task once more
+   .advRun 1600000 100]
+
+/-- task 0 fires at 500000 and — moved twice while pending — exactly once more,
+    at 1500000, where it re-arms for 2000000 and fires again; task 2 never fires;
+    the run stopped from inside returns code 2, and nothing deferred is lost -/
+example : (reWorld.run reOps).fired.map (fun f => (f.tid, f.due, f.now)) =
+      [(0, 500000, 500000), (1, 500000, 500000), (0, 1500000, 1500000), (0, 2000000, 2000000)] ∧
+    ((reWorld.run (reOps.take 3)).step (.advRun 500000 100)).2 = some 2 ∧
+    (reWorld.run reOps).calls = [5, 6] ∧ (reWorld.run reOps).subs = [5, 6] ∧
+    (reWorld.run reOps).tm.heap.map (·.tid) = [0] := by
+  decide +kernel
 
 /-- `recurring_grid` with 1/3 s in ticks of 1/3 µs (interval 10⁶, jitter 3, offset 10⁵),
     installed at 123456 µs: firings number 0, 1, 2 -/
@@ -2093,7 +2656,7 @@ example : (fireTime (3 * 123456) 3 1000000 100000 0, fireTime (3 * 123456) 3 100
 example : slotAfter (999999 + 1) 1000000 0 = 2000000 := by decide +kernel
 
 /-- `deferred_isolated` on a forest with raising members at both levels -/
-example : ({ queue := [Fn.mk 1 true [Fn.mk 3 true []], Fn.mk 2 false [Fn.mk 4 false []]] } : World).drain.calls
+example : ({ queue := [Fn.mk 1 true [Fn.mk 3 true [] []] [], Fn.mk 2 false [Fn.mk 4 false [] []] []] } : World).drain.calls
     = [1, 2, 3, 4] := by decide +kernel
 
 /-- refinement: the abstraction of a heap with colliding times -/
